@@ -208,11 +208,11 @@ func (r *remoteKeySet) updateKeys(ctx context.Context) {
 	keys, err := r.fetchRemoteKeys(ctx)
 	verifPoint(ctx, "jwks:fetched")
 
-	r.inflight.done(keys, err)
-	verifPoint(ctx, "jwks:done")
-
-	// Lock to update the keys and indicate that there is no longer an
-	// inflight request.
+	// Lock to update the keys, hand the result to the waiting goroutines and
+	// indicate that there is no longer an inflight request. This is one
+	// critical section: if the waiters were signalled before inflight is
+	// released, a new caller could still join the finished request and would
+	// be answered with keys that were fetched before its call began.
 	r.mu.Lock()
 	defer r.mu.Unlock()
 	verifPoint(ctx, "jwks:ulocked")
@@ -220,6 +220,9 @@ func (r *remoteKeySet) updateKeys(ctx context.Context) {
 	if err == nil {
 		r.cachedKeys = keys
 	}
+
+	r.inflight.done(keys, err)
+	verifPoint(ctx, "jwks:done")
 
 	// Free inflight so a different request can run.
 	r.inflight = nil
